@@ -245,7 +245,11 @@ func (P *Program) checkProperty(prop, tier string, timeoutS int, loadSecs float6
 				continue
 			}
 			if kf := isKnown(ob.Name); kf != nil {
+				// a recorded genuine defect: reported on every run, not counted among
+				// the obligations this run claims to have discharged
 				nKnown++
+				nObl--
+				fo--
 				fmt.Printf("KNOWN-FINDING: property=%s %s %s\n", prop, ob.Name, kf.text)
 				continue
 			}
@@ -300,7 +304,7 @@ func (P *Program) checkProperty(prop, tier string, timeoutS int, loadSecs float6
 			"solvers":          solv,
 			"samples":          samples,
 			"load_secs":        round2(loadSecs),
-			"explanation":      "obligations = verification conditions generated from /repo's current SSA for the functions whose contract lists this property; discharged = proved unsat (negated) by an SMT solver",
+			"explanation":      "obligations = verification conditions generated from /repo's current SSA for the functions whose contract lists this property, not counting those recorded as known findings (known_findings lists each by name); discharged = proved unsat (negated) by an SMT solver",
 		}}
 	b, _ := json.MarshalIndent(ev, "", " ")
 	if os.Getenv("VERIF_NO_EVIDENCE") == "" { // set only by tools/run_seeded.sh (runs on deliberately broken trees)
